@@ -13,8 +13,9 @@ META = {
                   "Wire/TotalProofs.v", "Wire/SimProofs.v", "Wire/AgreeProofs.v", "Wire/AgreeProofs2.v", "Wire/AgreeProofs3.v", "Wire/TruncProofs.v",
                   "Props/Properties_C41.v"],
     "theorems": [],  # filled below
-    "technique": "Coq proof (induction over the field list of a canonical encoding; loop invariants off <= len for the "
-                 "bounds-checked model) + differential check of model, reference and real object.Unmarshal on SDK-marshalled "
+    "technique": "Coq proof (loop invariants off <= len for the bounds-checked model; simulation of the three loops by pure "
+                 "functions of the decoded record list; induction over ordered, typed record lists; lock-step induction for buffer "
+                 "extension) + differential check of model, reference and real object.Unmarshal on SDK-marshalled "
                  "objects, all their truncations and structured mutations",
     "level_text": "Proved in Coq for ALL byte strings (unbounded lists): none of the modelled fast paths (SeekFieldByNumber/GetLENFieldBounds/"
                   "GetUint64Field/GetEnumField, GetNonPayloadFieldBounds, GetParentNonPayloadFieldBounds(+Header), GetPayloadLengthHeader, "
